@@ -32,6 +32,27 @@ atomic step (theorem simultaneous_arrivals_one_leader: any order of the arrivals
 round: threads, keys, number of inner calls in flight together, what each thread received, a one-line replay).
 (seeded/C11-w3m2; notes/strengthen-C11-w3m2.md)
 
+`manual finish threads=N rounds=R [keys=M] [gate=none|drop] [out=ok|err|mix]`: real-OS-thread SEARCH for executions in
+which the COMPLETION of a leader (inner result, publication to the waiters, unregistration of the key) is not atomic
+with respect to arrivals on other threads. A separate instance; no call future is ever dropped unfinished and no inner
+call panics, so a request has exactly two fates: it shares the result of the call in flight when it arrived, or it
+starts a fresh call; `leader_cancelled` must never be seen (theorems no_cancellation_without_cause,
+arrival_during_completion_shares_or_leads). `gate=none`: N threads make R requests each back to back (inner calls take
+0..2 polls). `gate=drop`: per round one request leads and completes at its first poll while the other N-1 threads are
+made to arrive INSIDE that completion: the copy of the result made for the (absent) waiters is destroyed there, and the
+destructor of the response / error type — the wrapped service's own type — is a timed rendezvous (code that publishes
+and unregisters under one lock keeps the arrivals out until the 3 ms time-out; code with a visible intermediate state
+lets them in: deterministic). Oracle per request (exact): Ok/Err with the serial of an inner call for its key that was
+in flight while the request was inside `Service::call`; per key never two unfinished inner calls. Compared line
+`finish rounds= calls= anomalies=`; monitor c11-arrival-during-completion relays `#finish-fail`.
+(seeded/C11-w4m2; notes/strengthen-C11-w4.md)
+
+`arrive … via=clone|template|swap|readyclone`: how the caller obtains the `CoalesceService` handle it calls (as in
+gen/bulkhead.py): a clone per request (default; `svc.clone().oneshot(req)`), the ONE handle the adapter owns (never
+cloned in that mode: the handle is the only owner of whatever the clones share, apart from the call futures), the
+`mem::replace` idiom, a clone of a readied handle. The model is indifferent (theorem caller_mode_irrelevant);
+15% of the cases use `via=template` for every request (seeded/C11-w4m1).
+
 Meta lines of the harness used by the monitors (never compared with the model):
   #arrive c key   adapter, just before `Service::call` (a leader's `inner_call` follows at once)
   #fp c t         first poll of caller c
@@ -42,6 +63,8 @@ Meta lines of the harness used by the monitors (never compared with the model):
   #ondrop c c2    adapter, inside the destructor of leader c's unfinished inner future: request c2 arrives now
   #herd …         adapter, configuration / wall time / rendezvous statistics of a `manual herd` run
   #herd-fail …    adapter, first violating round of a `manual herd` run, in full
+  #finish …       adapter, configuration / wall time / rendezvous statistics of a `manual finish` run
+  #finish-fail …  adapter, the first violations of a `manual finish` run, in full
 """
 import os
 from gen.util import kvs, tparse, pick_outcome
@@ -134,9 +157,46 @@ def gen_herd(rng, tier):
     return {"header": "coalesce", "ops": ops}
 
 
+# real-thread search for a non-atomic completion (`manual finish`): share of the cases; requests per thread in the
+# plain race by thread count (about 0.03-0.08 s per run on the reference machine, debug build); with the rendezvous a
+# conforming implementation costs one 3 ms time-out per round. Serialised with the herd runs (same flock).
+FINISH_P = {"quick": 0.015, "thorough": 0.004}
+VIAS = [" via=readyclone", " via=swap", " via=template", " via=clone"]
+
+
+def gen_finish(rng, tier):
+    scale = HERD_SCALE.get(tier, 1)
+    if rng.random() < 0.45:
+        threads = rng.choice([2, 2, 2, 3, 4])
+        op = "manual finish threads=%d rounds=%d gate=drop" % (threads, rng.choice([3, 6, 10]) * min(scale, 2))
+    else:
+        threads = rng.choice([2, 2, 3, 4, 4, 8])
+        rounds = {2: 4000, 3: 3000, 4: 2000, 8: 600}[threads] * rng.choice([1, 2]) * scale // 2
+        op = "manual finish threads=%d rounds=%d" % (threads, rounds)
+        if rng.random() < 0.3:
+            op += " keys=%d" % rng.randint(1, threads)
+        if rng.random() < 0.5:
+            op += " gate=none"
+    out = rng.choice(["ok", "ok", "err", "mix"])
+    if out != "ok":
+        op += " out=%s" % out
+    ops = []
+    if rng.random() < 0.3:             # ordinary requests around it: a separate instance
+        ops += ["arrive 1 key=1 inner=5:ok", "arrive 2 key=1 inner=0:ok via=template", "poll 2"]
+    ops.append(op)
+    if ops[0] != op or rng.random() < 0.2:
+        ops += ["arrive 3 key=1 inner=0:ok", "adv 5", "settle"]
+    return {"header": "coalesce", "ops": ops}
+
+
 def gen(rng, tier):
-    if rng.random() < HERD_P.get(tier, 0.02) and os.environ.get("VERIF_C11_HERD", "1") != "0":
-        return gen_herd(rng, tier)
+    r = rng.random()
+    if r < HERD_P.get(tier, 0.02):
+        if os.environ.get("VERIF_C11_HERD", "1") != "0":
+            return gen_herd(rng, tier)
+    elif r < HERD_P.get(tier, 0.02) + FINISH_P.get(tier, 0.015):
+        if os.environ.get("VERIF_C11_FINISH", "1") != "0":
+            return gen_finish(rng, tier)
     nkeys = rng.choice([1, 1, 2, 2, 3])
     ncall = rng.randint(2, 8) if rng.random() < 0.85 else rng.randint(1, 12)
     ops = []
@@ -154,6 +214,19 @@ def gen(rng, tier):
     r = rng.random()
     dropsvc = "never" if r < 0.62 else "start" if r < 0.65 else "inflight" if r < 0.83 else "any" if r < 0.93 else "late" if r < 0.97 else "end"
     gone = [False]
+    # how the callers obtain the handle they call: always a clone (the old cases) / always the one handle the adapter
+    # owns, never cloned / a favourite way with exceptions / anything
+    r = rng.random()
+    via_all = " via=template" if r < 0.15 else None
+    via_p = 0.0 if r < 0.50 else rng.choice([0.3, 0.7, 1.0])
+    via_main = rng.choice(VIAS + [" via=template"])
+
+    def via():
+        if via_all:
+            return via_all
+        if rng.random() >= via_p:
+            return ""
+        return via_main if rng.random() < 0.6 else rng.choice(VIAS)
 
     def handle_drop():
         ops.append("manual dropsvc")
@@ -183,7 +256,7 @@ def gen(rng, tier):
             out = pick_outcome(rng, w_ok=5, w_err=2, w_panic=2, w_never=1)
             cp = rng.random() < 0.12        # the inner service's call() itself panics (if this request leads)
             keep = rng.random() < 0.25      # the caller holds on to the finished future and drops it later (`release`)
-            ops.append("arrive %d key=%d inner=%d:%s%s%s" % (c, key, lat, out, " callpanic=1" if cp else "", " keep=1" if keep else ""))
+            ops.append("arrive %d key=%d inner=%d:%s%s%s%s" % (c, key, lat, out, " callpanic=1" if cp else "", " keep=1" if keep else "", via()))
             arrived.append(c)
             if gone[0]:
                 continue                    # no handle to call through: refused (`noop`), and so is any poll/drop of it
@@ -225,7 +298,7 @@ def gen(rng, tier):
                     sim.arrive(c2, key, now, lat, out)      # onto the dying leader
                 sim.drop(c)
                 if rng.random() < 0.9:
-                    ops.append("arrive %d key=%d inner=%d:%s" % (c2, key, lat, out))
+                    ops.append("arrive %d key=%d inner=%d:%s%s" % (c2, key, lat, out, via()))
                     arrived.append(c2)
                     if not gone[0] and c not in leaders:
                         sim.arrive(c2, key, now, lat, out)
@@ -283,8 +356,8 @@ def gen(rng, tier):
         base = 100
         for k in range(1, nkeys + 1):
             if rng.random() < 0.25:
-                ops.append("arrive %d key=%d inner=0:ok callpanic=1" % (base + 10 + k, k))
-            ops.append("arrive %d key=%d inner=0:ok" % (base + k, k))
+                ops.append("arrive %d key=%d inner=0:ok callpanic=1%s" % (base + 10 + k, k, via()))
+            ops.append("arrive %d key=%d inner=0:ok%s" % (base + k, k, via()))
         for k in range(1, nkeys + 1):
             ops.append("poll %d" % (base + k))
         if rng.random() < 0.4 and settles < 2:
@@ -294,12 +367,12 @@ def gen(rng, tier):
         base = 200
         ops.append("settle")
         lat = rng.choice([10, 20])
-        ops.append("arrive %d key=%d inner=%d:ok" % (base + 1, hot, lat))
-        ops.append("arrive %d key=%d inner=0:ok" % (base + 2, hot))
+        ops.append("arrive %d key=%d inner=%d:ok%s" % (base + 1, hot, lat, via()))
+        ops.append("arrive %d key=%d inner=0:ok%s" % (base + 2, hot, via()))
         ops.append("poll %d" % (base + 2))
         for c in kept:
             ops.append("release %d" % c)
-        ops.append("arrive %d key=%d inner=0:ok" % (base + 3, hot))
+        ops.append("arrive %d key=%d inner=0:ok%s" % (base + 3, hot, via()))
         ops.append("poll %d" % (base + 3))
         ops.append("adv %d" % lat)
         ops.append("settle")
@@ -424,6 +497,17 @@ def mon_herd(case, lines, meta):
     for _, m in meta:
         if m.startswith("#herd-fail"):
             return "simultaneous arrivals (real threads) violated the property: " + m[len("#herd-fail"):].strip()
+    return None
+
+
+def mon_finish(case, lines, meta):
+    """Real-thread search (`manual finish`): requests racing with completions, nothing ever dropped or panicking. The
+    harness judged every request (it shares the result of a call for its key that was in flight while it was inside
+    `Service::call`, or leads a fresh one; never leader_cancelled) and every inner call (never two unfinished for one
+    key); the first violations are relayed in full with a one-line replay."""
+    for _, m in meta:
+        if m.startswith("#finish-fail"):
+            return "arrivals racing with a completion (real threads) violated the property: " + m[len("#finish-fail"):].strip()
     return None
 
 
@@ -590,6 +674,32 @@ def transitions(case, lines, meta=None):
                 tags.append("herd-lookup-exclusive" if int(kv.get("gate_timeouts", "0")) > 0 else "herd-lookup-shared")
             if int(kv.get("keys", "1")) > 1:
                 tags.append("herd-several-keys")
+    for _, m in (meta or []):
+        if m.startswith("#finish "):
+            kv = kvs(m)
+            tags.append("finish-run")
+            tags.append("finish-gate-%s" % kv.get("gate", "none"))
+            if kv.get("gate") == "drop":
+                # the rendezvous inside the completion: the arrivals got in, or the completing thread gave up waiting
+                tags.append("finish-completion-exclusive" if int(kv.get("gate_timeouts", "0")) > 0 else "finish-completion-open")
+            if int(kv.get("joined", "0")) > 0:
+                tags.append("finish-coalesced")
+    # caller modes; `sole-handle-overlap`: every request so far came through the one never-cloned handle and this one
+    # found a call in flight (it is polled as a waiter)
+    only_template = True
+    seen = set()
+    for o in case["ops"]:
+        w = o.split()
+        if len(w) >= 2 and w[0] == "arrive" and w[1] not in seen:
+            seen.add(w[1])
+            v = kvs(o).get("via", "clone")
+            if v != "clone":
+                tags.append("via-%s" % v)
+            only_template = only_template and v == "template"
+            if only_template and w[1] in waiters:
+                tags.append("sole-handle-overlap")
+        elif w[:2] == ["manual", "ondrop"]:
+            only_template = False
     for l in lines:
         _, w = tparse(l)
         if not w:
@@ -615,7 +725,7 @@ def transitions(case, lines, meta=None):
 
 
 def nontrivial(case, lines, tags):
-    return any(t.startswith("waiter-") or t in ("leader-dropped", "leader-panic", "call-panic", "herd-run") for t in tags)
+    return any(t.startswith("waiter-") or t in ("leader-dropped", "leader-panic", "call-panic", "herd-run", "finish-run") for t in tags)
 
 
 LEVEL_NOTE = ("Trusted: Lean kernel; the transcription of tokio's broadcast channel (a value sent before the sender is dropped stays "
@@ -633,7 +743,8 @@ LEVEL_NOTE = ("Trusted: Lean kernel; the transcription of tokio's broadcast chan
               "Parallel callers: the model's unit of atomicity is one Service::call (look-up + registration under one lock) and one poll; that "
               "assumption is not proved, it is probed by the `manual herd` cases — a bounded search over real OS-thread schedules (with a timed "
               "rendezvous inside call() through the key type's Clone/Hash), exact oracles, no tolerance; a clean run is evidence only "
-              "(notes/strengthen-C11-w3m2.md).")
+              "(notes/strengthen-C11-w3m2.md). The same for a completion: `manual finish` races arrivals with completions (and, through the "
+              "response type's destructor, makes them arrive inside one) — notes/strengthen-C11-w4.md.")
 
 SPECS = {
     "C11": {
@@ -641,7 +752,7 @@ SPECS = {
         "module": "TR.Props.C11",
         "gen": gen,
         "corpus_filter": lambda c: REENTRANT_DROP or not any(o.startswith("manual ondrop") for o in c["ops"]),
-        "monitors": [("c11-drop-overlap", mon_drop_overlap), ("c11-simultaneous-arrivals", mon_herd), ("c11-one-inflight-per-key", mon_inflight), ("c11-shared-result", mon_share), ("c11-prompt", mon_prompt)],
+        "monitors": [("c11-drop-overlap", mon_drop_overlap), ("c11-simultaneous-arrivals", mon_herd), ("c11-arrival-during-completion", mon_finish), ("c11-one-inflight-per-key", mon_inflight), ("c11-shared-result", mon_share), ("c11-prompt", mon_prompt)],
         "transitions": transitions,
         "nontrivial": nontrivial,
         "all_transitions": ["lead", "lead-again", "leader-ok", "leader-err", "leader-panic", "leader-dropped",
@@ -649,10 +760,12 @@ SPECS = {
                             "dropsvc-first", "dropsvc-idle", "dropsvc-inflight", "waiter-served-after-dropsvc",
                             "waiter-cancelled-after-dropsvc", "refused-after-dropsvc",
                             "arrival-during-leader-drop-joined", "ondrop-second-thread",
-                            "herd-run", "herd-gate-none", "herd-gate-clone", "herd-gate-hash", "herd-lookup-exclusive", "herd-several-keys"],
+                            "herd-run", "herd-gate-none", "herd-gate-clone", "herd-gate-hash", "herd-lookup-exclusive", "herd-several-keys",
+                            "finish-run", "finish-gate-none", "finish-gate-drop", "finish-completion-exclusive", "finish-coalesced",
+                            "via-template", "via-swap", "via-readyclone", "sole-handle-overlap"],
         "canon": canon,
-        "model_modules": ["TR.Model.Coalesce", "TR.Lemmas.Coalesce", "TR.Lemmas.CoalesceHandle", "TR.Lemmas.CoalesceHerd", "TR.Mutants.CoalesceCallPanicWedges"],
-        "lean_files": ["TR.Model.Coalesce", "TR.Lemmas.Coalesce", "TR.Lemmas.CoalesceHandle", "TR.Lemmas.CoalesceHerd"],
+        "model_modules": ["TR.Model.Coalesce", "TR.Lemmas.Coalesce", "TR.Lemmas.CoalesceHandle", "TR.Lemmas.CoalesceHerd", "TR.Lemmas.CoalesceCaller", "TR.Mutants.CoalesceCallPanicWedges"],
+        "lean_files": ["TR.Model.Coalesce", "TR.Lemmas.Coalesce", "TR.Lemmas.CoalesceHandle", "TR.Lemmas.CoalesceHerd", "TR.Lemmas.CoalesceCaller"],
         "sizes": (600, 30000),
         "rule": "seeded random op sequences (arrive key=../poll/drop/adv/settle) over 1..3 keys and 1..12 requests, 70% of them on one key, "
                 "inner latencies 0..40 ms with ok/err/panic/never, 12% of the arrivals with an inner call() that itself panics, advances biased to completion-1/completion/completion+1, leader and waiter "
@@ -663,12 +776,19 @@ SPECS = {
                 "destroyed (`manual ondrop`, half of them on a second OS thread); about 2% (quick) / 0.6% (thorough) of the cases are "
                 "real-thread searches for non-atomic leader election (`manual herd`: 2..16 threads released together call the service for "
                 "1..N keys while no inner call can finish, 4..6000 rounds (x4 in the thorough tier), one run at a time on the machine, rendezvous inside call() through the "
-                "key type's Clone / Hash or none; oracle: one inner call per key in flight, everybody gets its result); "
+                "key type's Clone / Hash or none; oracle: one inner call per key in flight, everybody gets its result); about 1.5% (quick) / "
+                "0.4% (thorough) are real-thread searches for a non-atomic completion (`manual finish`: 2..8 threads make 600..8000 requests "
+                "each back to back, or 3..20 rounds in which N-1 threads arrive inside one completion through a timed rendezvous in the "
+                "response type's destructor; nothing dropped, nothing panics; oracle: every request gets the result of a call for its key "
+                "in flight while it was inside call(), never leader_cancelled); the callers reach the service through a clone per request "
+                "(50% of the cases always), through the one never-cloned handle (15% always), or through a mix of clone / template / "
+                "mem::replace / clone-of-a-readied-handle (`via=`); "
                 "distinct = distinct implementation event log; non-trivial = some waiter resolved, or a leader was dropped or panicked",
         "trusted": ["tokio broadcast / parking_lot Mutex / unwinding semantics as transcribed in TR.Model.Coalesce (sampled by the correspondence check)",
                     "harness: clock_gettime interposition, manual poller, scripted inner service", "python diff/monitors",
                     "parking_lot::Mutex gives mutual exclusion over look-up + registration (the model's atomic `call()` step); probed, not "
-                    "proved, by the real-thread search `manual herd`"],
+                    "proved, by the real-thread search `manual herd`; likewise over inner result + publication + unregistration (the model's "
+                    "atomic leader poll): probed by `manual finish`"],
         "assumptions": ["one poll of one call future, and one Service::call, is atomic (single-threaded runtime; the map is behind a mutex): leader "
                         "election = look-up + registration under ONE lock. Every theorem about requests on several threads goes through this "
                         "assumption; the `manual herd` cases search real schedules for an execution that breaks it (sampling, not proof; "
@@ -682,7 +802,8 @@ SPECS = {
                       "completed_leader_waiter_resolves, key_free_again, fresh_call_when_free, no_eternal_wait, "
                       "waiter_resolves_once_leader_gone, waiter_always_rearmed, handle_drop_only_stops_arrivals, handle_drop_preserves_outcomes, "
                       "handle_drop_time_irrelevant, handle_drop_unobservable, waiters_outlive_the_handle, request_during_leader_teardown, "
-                      "dropOps_spec, simultaneous_arrivals_one_leader}: for every operation sequence over any key space (all arrival, "
+                      "dropOps_spec, simultaneous_arrivals_one_leader, no_cancellation_without_cause, arrival_during_completion_shares_or_leads, "
+                      "caller_mode_irrelevant}: for every operation sequence over any key space (all arrival, "
                       "completion, cancellation instants, all poll orders, ok/err/panic/never, panics inside inner.call() as well as in its "
                       "future) at most one inner call per key is in flight in every prefix of the log; a key is registered exactly while a "
                       "leader of it is alive; a request that finds its key registered makes no inner call and resolves only with its own "
